@@ -9,3 +9,5 @@ const HooksEnabled = false
 func newRealNetlink(sock *simSocket, pid uint32, buf []byte) *libaudit.NetlinkClient { return nil }
 
 func resetCoalesceGlobals() {}
+
+func setRealSeq(c *libaudit.NetlinkClient, seq uint32) {}
